@@ -188,6 +188,18 @@ CHECKS = {
              "instances report exactly their own rules (also when re-run). The saved family is validated in 4 (12) "
              "child processes with different PYTHONHASHSEED and the issue multisets compared.",
         design="DESIGN.md C19, 10.1"),
+    "C20": dict(
+        engine="input",
+        category="model_checking",
+        technique="bounded-exhaustive enumeration of queries over small document sets against a reference evaluation on the source "
+                  "documents; the finder's printed output is parsed combination by combination",
+        text="Six document sets (1-3 documents, Sections on two levels, attribute values from a two-letter pool) exported without "
+             "sub-classing x every query of <=2 (quick) / <=3 (thorough) attribute/value pairs of one kind over all RDF-model "
+             "attributes incl. id, date, uncertainty (values present or absent) + multi-kind queries (Doc+Sec, Sec+Prop, "
+             "Doc+Sec+Prop) x string and dictionary parameters, each chunk of queries run forwards and backwards in one process, + "
+             "fuzzy queries: for every non-empty combination of the given pairs the finder reports it iff the reference result "
+             "is non-empty, with exactly the reference rows, ordered most specific first; nothing raises.",
+        design="DESIGN.md C20"),
 }
 
 NOT_YET = {}
